@@ -286,7 +286,7 @@ theorem hexAddCell_accept (k : Kernel) (hfs : List Nat) (chk : Bool) (c : Nat)
           · rename_i ord hre
             simp only [hre]
             obtain ⟨a, b, d⟩ := key _ _ h
-            exact ⟨a, b, ord, d, hexReorder_length k hfs ord hre, hv, Or.inr (Or.inr ⟨hct, by first | (simpa using hco) | simp | trivial, by first | rfl | exact hre⟩)⟩
+            exact ⟨a, b, ord, d, hexReorder_length k hfs ord hre, hv, Or.inr (Or.inr ⟨hct, by first | (simp at hco; simp [hco]; done) | simp | trivial, by first | rfl | exact hre⟩)⟩
 
 theorem hexAddCell_len (k : Kernel) (hfs : List Nat) (chk : Bool) (h : HexLen k) : HexLen (k.hexAddCell hfs chk).1 := by
   cases hr : (k.hexAddCell hfs chk).2 with
@@ -572,7 +572,7 @@ theorem hexWalkAtB_of_spec (k : Kernel) (hfs : List Nat) (pos : Nat) (order : Li
   rw [this]; exact hc
 
 /-- a neighbour that is neither of the two first halffaces is found by the offset chain -/
-theorem offsetOf_ne_none (h0 h1 h2 h3 h4 h5 x q0 q1 q2 q3 : Nat) (self : Nat)
+theorem offsetOf_ne_none (h0 h1 h2 h3 h4 h5 x q0 q1 q2 q3 : Nat)
     (hq : [q0, q1, q2, q3].Perm [2, 3, 4, 5])
     (hm : x ∈ [h0, h1, h2, h3, h4, h5]) (hx0 : x ≠ h0) (hx1 : x ≠ h1) :
     hexOffsetOf [(q0, 0), (q1, 1), (q2, 2), (q3, 3)] [h0, h1, h2, h3, h4, h5] (some x) ≠ none := by
@@ -616,10 +616,10 @@ theorem checkOrdering_walk (k : Kernel) (h0 h1 h2 h3 h4 h5 e0 e1 e2 e3 f0 f1 f2 
   constructor
   · apply hexWalkAtB_of_spec k _ 0 specOrderTop e0 e1 e2 e3 (by rw [ht]; exact htop)
     exact walkOk_spec k _ h0 2 4 3 5 e0 e1 e2 e3 htop hchk.1
-      (by rw [hx]; exact offsetOf_ne_none h0 h1 h2 h3 h4 h5 x 2 4 3 5 h0 (by decide) hx1 hx2 hxb)
+      (by rw [hx]; exact offsetOf_ne_none h0 h1 h2 h3 h4 h5 x 2 4 3 5 (by decide) hx1 hx2 hxb)
   · apply hexWalkAtB_of_spec k _ 1 specOrderBot f0 f1 f2 f3 (by rw [hb]; exact hbot)
     exact walkOk_spec k _ h1 3 4 2 5 f0 f1 f2 f3 hbot hchk.2
-      (by rw [hy]; exact offsetOf_ne_none h0 h1 h2 h3 h4 h5 y 3 4 2 5 h1 (by decide) hy1 hyt hy2)
+      (by rw [hy]; exact offsetOf_ne_none h0 h1 h2 h3 h4 h5 y 3 4 2 5 (by decide) hy1 hyt hy2)
 
 /-! ### the automatic re-ordering stores a list that satisfies the walk clause -/
 
